@@ -447,6 +447,8 @@ impl<Z: ZNum> Expect<Z> {
                     | Obs::ON(None)
                     | Obs::OOrd(None)
                     | Obs::R(Err(_))
+                    | Obs::Ord(0)
+                    | Obs::OOrd(Some(0))
             ),
             Expect::AnyErr => true,
             Expect::FlagOnly(f) => *f,
